@@ -22,6 +22,22 @@ CHECKS = {
         technique="TLC model checking + edge replay + trace validation of per-transition log segments (exit<transition<entry, ancestor/descendant order, event identity, enter/exit accounting replay, LCA frame)",
         text="For every executed transition of every explored edge (families T/H/D, both interpreters) the recorded log segment is checked by Prop C03: order of exit/transition/entry marker actions, ancestor/descendant order, the event each action received, a replay of entry/exit witnesses over the pre-configuration (never enter an active state, never exit an inactive one, ends in the post-configuration) and that no witness lies outside the subtree of the LCA of source and target.",
         design="DESIGN.md section 8 C03"),
+    "C05": dict(
+        technique="TLC model checking of the sync model with a spec-level equivalence of the sync/async/pure step variants; every edge executed on the three real engines in lock step and compared pairwise",
+        text="For every reachable state x relevant event x guard valuation of families T/H/D/R/S (send_events batches included for R) TLC evaluates on the Impl layer whether the three engine variants of the step agree; every explored edge is then executed on SyncInterpreter, Interpreter (at quiescence) and the pure API along the same path and configuration, context, status, output and ordered action lists (with triggering events) are compared; purity of the pure API is observed on every call. Differences that are recorded defects are matched by narrow signatures (known_findings.json).",
+        design="DESIGN.md section 8 C05"),
+    "C10": dict(
+        technique="TLC model checking + edge replay + trace validation; completions counted as rising edges of in-final along the configuration reconstructed from entry/exit witnesses of each step",
+        text="Prop C10 (spec/SCProps.tla) checks on every explored/observed step: done.state events are raised exactly for completions (literal reading as lower bound, the engine's recursive reading as upper bound), a parallel state's onDone is never taken while a region is not final, a top-level final state sets status done exactly once with the right output, nothing runs for events dequeued after completion, and sends to a done machine change nothing. Families D (completion nests), R (reactions, events queued behind completion), T.",
+        design="DESIGN.md section 8 C10"),
+    "C11": dict(
+        technique="TLC model checking + edge replay + trace validation of history-targeting transitions against the configuration remembered at the parent's last exit",
+        text="For every transition into a history pseudo-state from outside its parent, on every explored/observed step, the sub-configuration activated inside the parent is compared with what Prop C11 computes from the remembered configuration: shallow = default closure of the remembered child(ren), deep = exactly the remembered leaves, never visited = default target or the parent's normal entry; each restored state entered once. Family H covers compound and parallel parents, nested parallel states below the parent, both history kinds side by side, default targets, wrapper depth; TLC reaches never/once/repeatedly visited histories by exploring all event sequences.",
+        design="DESIGN.md section 8 C11"),
+    "C16": dict(
+        technique="deterministic TLA+ Impl layer (one successor per state and step, TLC) bound to the code by replaying every edge in k processes with different PYTHONHASHSEED/heap layout and twice in-process, comparing complete logs",
+        text="The specification fixes every order the code is supposed to produce, so the model has a unique successor per (state, step); every TLC edge that runs an action or changes the configuration is executed on the real engines in several processes that differ in hash seed and heap layout and on independently built machines in one process; full recorder logs and post-states must be identical across runs (and are compared with the spec's unique successor).",
+        design="DESIGN.md section 8 C16"),
 }
 
 ALL = [f"C{i:02d}" for i in range(1, 21)]
